@@ -390,8 +390,14 @@ func (o *orun) lens(ri int, q *OReq, e *oReq, i int, full bool) {
 		ownPos[cell] = p
 	}
 	// a container with a huge array costs ~100 us per byte image: the full product of cell states is kept for ordinary structs
+	kmax := 3 // value numbers 0 .. (largest number of values of a focused cell) - 1
+	for cell := f[0]; cell <= f[1]; cell++ {
+		if c.Cells[cell-1].Own && c.Cells[cell-1].NV > kmax {
+			kmax = c.Cells[cell-1].NV
+		}
+	}
 	for _, st := range o.states(full && s.VSize <= 4096) {
-		for k := 0; k < 3; k++ {
+		for k := 0; k < kmax; k++ {
 			o.restore(o.clean)
 			o.setState(st)
 			before := o.image()
